@@ -26,6 +26,7 @@ type Gen struct {
 	PSettingsLate int
 	PExoticNames  int
 	PMalformed    int // share of byte-soup argv
+	PSingleLetter int
 	Kinds         []int
 	Modes         []int
 	UModes        []int
@@ -76,7 +77,9 @@ func (g *Gen) shuffleStrings(l []string) []string {
 func (g *Gen) freshName(used map[string]bool) string {
 	for tries := 0; tries < 50; tries++ {
 		var n string
-		if g.pct(g.PExoticNames) {
+		if g.pct(g.PSingleLetter) {
+			n = string(rune('a' + g.r.Intn(26)))
+		} else if g.pct(g.PExoticNames) {
 			n = g.pick(exoticNamePool)
 		} else {
 			n = g.pick(optNamePool)
